@@ -10,7 +10,9 @@ import GqlModel.Vars.Spec
   conforms (list <schema> <gtype> <goval>…)            → one 0/1 per goval, joined by ";"
   coercible (list <schema> <gtype> <goval>…)           → likewise for `Coercible`
   argspec (list <argdefs> <args> <vardefs> <goval>)     → OK <goval> | NONE   (the C15 specification)
-  strconv pi|pf|pb|quote <hex> ; strconv fold <hex s> <hex t>
+  judge <readings> <readings> (list <schema> <gtype> (list <result>…) (list <supplied>…))  → 0/1 strings, see `opJudgeMany`
+  conformsl <5 bits: typenameKey single strictNumStr strictFracInt strictJsonNumber> (list <schema> <gtype> <goval>…)
+  strconv pi|pf|pb|quote <hex>
 -/
 namespace Gql.Ops
 open Gql
@@ -138,9 +140,6 @@ def opStrconv : List String → String
   | ["quote", h] => match fromHex h with
     | some b => toHexW (Strconv.quote b)
     | none => "bad-hex"
-  | ["fold", hs, ht] => match fromHex hs, fromHex ht with
-    | some s, some t => if Strconv.equalFoldAscii s t then "1" else "0"
-    | _, _ => "bad-hex"
   | _ => "bad-args"
 
 def varsOps : List (String × (List String → String)) :=
